@@ -25,16 +25,17 @@ func runC07(c *mon.Ctx) {
 }
 
 type c07Ident struct {
-	name    string // SubScope name or Tagged value
-	tagged  bool
-	key     string // recorder key of counter "c"
-	hkey    string // recorder key prefix of histogram "h" bucket (-max,max]
-	inert   string // name under which a child of the closed scope would deliver
-	sum     int64  // increments made on handles before their Close
-	hsum    int64
-	closes  int64
-	never   bool // bystander: never closed
-	histKey string
+	name     string // SubScope name or Tagged value
+	tagged   bool
+	key      string // recorder key of counter "c"
+	hkey     string // recorder key prefix of histogram "h" bucket (-max,max]
+	inert    string // name under which a child of the closed scope would deliver
+	sum      int64  // increments made on handles before their Close
+	hsum     int64
+	closes   int64
+	never    bool // bystander: never closed
+	histKey  string
+	histOnly bool // the harness only ever creates a histogram on this scope
 }
 
 func c07Pause(r *mon.Rand) {
@@ -151,7 +152,7 @@ func c07Run(c *mon.Ctx, r *mon.Rand) {
 		n := r.Range(1, 3)
 		var mine []*c07Ident
 		for k := 0; k < n; k++ {
-			id := &c07Ident{name: fmt.Sprintf("w%d_k%d", w, k), tagged: r.Bool(), never: k == 0 && r.Chance(1, 3)}
+			id := &c07Ident{name: fmt.Sprintf("w%d_k%d", w, k), tagged: r.Bool(), never: k == 0 && r.Chance(1, 3), histOnly: k == 1}
 			if id.tagged {
 				id.key = mon.IdentKey("c", withRT(map[string]string{"id": id.name}))
 				id.histKey = mon.BucketKeyV("h", withRT(map[string]string{"id": id.name}), -1.7976931348623157e308, 1.7976931348623157e308)
@@ -244,11 +245,15 @@ func c07Run(c *mon.Ctx, r *mon.Rand) {
 								h.obj = hist.ObjNum(id.name, sc)
 								hist.Add(w, mon.RegIn{Ident: id.name}, call, h.obj, hist.Tick())
 							}
-							h.ctr = sc.Counter("c")
-							if wr.Chance(1, 4) {
+							if id.histOnly {
 								h.h = sc.Histogram("h", tally.ValueBuckets{})
+							} else {
+								h.ctr = sc.Counter("c")
+								if wr.Chance(1, 4) {
+									h.h = sc.Histogram("h", tally.ValueBuckets{})
+								}
 							}
-							if wr.Chance(1, 3) {
+							if wr.Chance(1, 3) && !id.histOnly {
 								// a child that exists (registered, never recorded on) while its parent is live
 								sc.SubScope("kid").Counter("c")
 							}
@@ -257,8 +262,10 @@ func c07Run(c *mon.Ctx, r *mon.Rand) {
 							h := handles[wr.Intn(len(handles))]
 							k := wr.Range(1, 3)
 							for j := 0; j < k; j++ {
-								h.ctr.Inc(1)
-								h.id.sum++
+								if h.ctr != nil {
+									h.ctr.Inc(1)
+									h.id.sum++
+								}
 								if h.h != nil {
 									h.h.RecordValue(1)
 									h.id.hsum++
@@ -274,7 +281,7 @@ func c07Run(c *mon.Ctx, r *mon.Rand) {
 							// name on this scope (never recorded on) while it is closed and gets
 							// its final report
 							var creator chan struct{}
-							if wr.Chance(1, 2) {
+							if wr.Chance(1, 2) && !h.id.histOnly {
 								creator = make(chan struct{})
 								sc, nm, slow := h.sc, fmt.Sprintf("extra_%d_%d_%d", e, w, i), slowAlloc
 								go func() {
